@@ -6,7 +6,8 @@
 //     -> "w h : dst planes"      (destination pre-filled with 77)
 //   ot <ch> <dir> <w> <h> | plane_0 | ...      threshold_optimal(src, dst, otsu, dir); ch: u8 i8 u16 i16 rgb8 rgb16
 //   mo <ch> <w> <h> <ks> <cy> <cx> <iters> | kernel (ks*ks, row-major) | plane_0 | ...
-//     -> "w h : dilate | erode | opening | closing | opening(opening) | closing(closing)"  (each: all planes, separated by /)
+//     -> "w h : dilate | erode | opening | closing | opening(opening) | closing(closing) | dilate(complement) | erode(complement)"
+//        (each: all planes, separated by /; complement = (min + max of the channel type) - src, same iterations)
 //   me <ch> <w> <h> <k> | plane_0 | ...        median_filter(src, dst, k)
 //   adT <ch> <mean|gauss> <w> <h> <k> | src    the local-threshold surface: the same convolution call threshold_adaptive makes
 //        (convolve_1d with the 1/k float kernel resp. convolve_2d with generate_gaussian_kernel(k, 1.0)) -> "w h : T plane"
@@ -108,8 +109,17 @@ std::string mo(Op const& op) {
     gil::closing(gil::const_view(src), gil::view(cls), ker);
     gil::opening(gil::const_view(opn), gil::view(opn2), ker);
     gil::closing(gil::const_view(cls), gil::view(cls2), ker);
+    using C = typename gil::channel_type<typename Img::view_t>::type;
+    ll const K = (ll)std::numeric_limits<C>::min() + (ll)std::numeric_limits<C>::max();
+    std::vector<std::vector<ll>> comp;
+    for (size_t g = 1; g < op.groups.size(); ++g) { comp.push_back(op.groups[g]); for (auto& v : comp.back()) v = K - v; }
+    Img csrc(w, h); load(gil::view(csrc), comp, 0);
+    Img cdil(w, h), cero(w, h);
+    gil::dilate(gil::const_view(csrc), gil::view(cdil), ker, iters);
+    gil::erode(gil::const_view(csrc), gil::view(cero), ker, iters);
     return dims(gil::view(src)) + planes_of(gil::view(dil), " /") + " |" + planes_of(gil::view(ero), " /") + " |" + planes_of(gil::view(opn), " /") + " |" +
-           planes_of(gil::view(cls), " /") + " |" + planes_of(gil::view(opn2), " /") + " |" + planes_of(gil::view(cls2), " /");
+           planes_of(gil::view(cls), " /") + " |" + planes_of(gil::view(opn2), " /") + " |" + planes_of(gil::view(cls2), " /") + " |" +
+           planes_of(gil::view(cdil), " /") + " |" + planes_of(gil::view(cero), " /");
 }
 template <class Img>
 std::string me(Op const& op) {
